@@ -413,6 +413,8 @@ impl IgnoreMask {
             // Initialize state
             let mut all_rules_disabled = false;
             let mut disabled_rules = <HashSet<String>>::default();
+            // Rules re-enabled by name after a `disable=all`
+            let mut enabled_rules = <HashSet<String>>::default();
 
             // For each directive
             for (line_no, line_pos, ignore) in directives {
@@ -429,9 +431,13 @@ impl IgnoreMask {
                     NoQADirective::RangeIgnoreAll(RangeIgnoreAll { action, .. }) => match action {
                         IgnoreAction::Disable => {
                             all_rules_disabled = true;
+                            disabled_rules.clear();
+                            enabled_rules.clear();
                         }
                         IgnoreAction::Enable => {
                             all_rules_disabled = false;
+                            disabled_rules.clear();
+                            enabled_rules.clear();
                         }
                     },
                     NoQADirective::RangeIgnoreRules(RangeIgnoreRules { action, rules, .. }) => {
@@ -439,11 +445,13 @@ impl IgnoreMask {
                             IgnoreAction::Disable => {
                                 for rule in rules {
                                     disabled_rules.insert(rule.clone());
+                                    enabled_rules.remove(rule);
                                 }
                             }
                             IgnoreAction::Enable => {
                                 for rule in rules {
                                     disabled_rules.remove(rule);
+                                    enabled_rules.insert(rule.clone());
                                 }
                             }
                         }
@@ -452,16 +460,18 @@ impl IgnoreMask {
                 }
             }
 
-            // Check whether the violation is masked
-            if all_rules_disabled {
-                return true;
-            } else if let Some(rule) = &violation.rule {
+            // Check whether the violation is masked: the last directive that is relevant to
+            // the rule (one naming it, or an `all` directive) decides.
+            if let Some(rule) = &violation.rule {
                 if disabled_rules.contains(rule.code) {
                     return true;
                 }
+                if enabled_rules.contains(rule.code) {
+                    return false;
+                }
             }
 
-            false
+            all_rules_disabled
         }
 
         is_masked_by_line_rules(self, violation) || is_masked_by_range_rules(self, violation)
